@@ -76,7 +76,10 @@ func c06Decode(f Filter, v Version, enc []byte, chunk int) ([]byte, error) {
 func c06Filters() []Filter {
 	fs := []Filter{FilterASCII85{}, FilterASCIIHex{}, FilterRunLength{}, FilterFlate{}, FilterLZW{}, FilterLZW{OffByOne: true}, FilterCompress{}}
 	for _, p := range []FlatePredictor{FlatePredictorTIFF, FlatePredictorPNGNone, FlatePredictorPNGSub, FlatePredictorPNGUp, FlatePredictorPNGAverage, FlatePredictorPNGPaeth, FlatePredictorPNGOptimum} {
-		for _, geo := range [][3]int{{1, 8, 6}, {3, 8, 4}, {1, 1, 16}, {1, 4, 6}, {2, 16, 3}, {4, 2, 5}, {3, 4, 5}, {5, 2, 3}, {9, 1, 4}} {
+		for _, geo := range [][3]int{{1, 8, 6}, {3, 8, 4}, {1, 1, 16}, {1, 4, 6}, {2, 16, 3}, {4, 2, 5}, {3, 4, 5}, {5, 2, 3}, {9, 1, 4}, {256, 8, 2}, {60, 8, 1}, {255, 1, 3}} {
+			if geo[0] > 60 && p == FlatePredictorTIFF {
+				continue // TIFF predictor: at most 60 colour components
+			}
 			fs = append(fs, FilterFlate{Predictor: p, Colors: geo[0], BitsPerComponent: geo[1], Columns: geo[2]})
 			if p == FlatePredictorPNGUp || p == FlatePredictorTIFF {
 				fs = append(fs, FilterLZW{Predictor: p, Colors: geo[0], BitsPerComponent: geo[1], Columns: geo[2], OffByOne: true})
@@ -105,10 +108,17 @@ func c06Inputs(row int) [][]byte {
 	var out [][]byte
 	for _, n := range []int{0, 1, 2, 3, 4, 5, 127, 128, 129, 130, 255, 256, 257, 1000, 4096, 5000} {
 		n = (n / row) * row
-		for kind := 0; kind < 4; kind++ {
+		x := uint32(2463534242 + n)
+		for kind := 0; kind < 5; kind++ {
 			d := make([]byte, n)
 			for i := range d {
 				switch kind {
+				case 4:
+					// noise: exercises ties and every branch of the predictors
+					x ^= x << 13
+					x ^= x >> 17
+					x ^= x << 5
+					d[i] = byte(x >> 9)
 				case 0:
 					d[i] = byte(i*31 + i/7)
 				case 1:
@@ -634,6 +644,10 @@ func c06CCITTImages() []c06CCITTImage {
 		{"a4", 1728, [][]int{{1728}, {1728}, {100, 28, 1600}, {0, 1728}, {0, 1728}, {864, 864}, {63, 1, 64, 1600}}},
 		{"wide", 6000, [][]int{{2559, 1, 2560, 880}, {2600, 800, 2600}, {3000, 3000}, {5183, 817}, {5184, 816}, {6000}}},
 		{"a3-600dpi", 7016, [][]int{{100, 50, 6866}, {7016}, {7016}, {16, 7000}}},
+		// blank rows whose only run ends in an extended make-up code (1792..2560) plus terminating code 0
+		{"w1792", 1792, [][]int{{1792}, {1792}, {0, 1792}, {0, 1792}, {896, 896}}},
+		{"w2560", 2560, [][]int{{2560}, {2560}, {0, 2560}, {100, 2460}}},
+		{"w4352", 4352, [][]int{{4352}, {4352}, {0, 4352}, {1792, 2560}}},
 	}
 }
 
